@@ -127,9 +127,23 @@ def run(chk):
             cname = list(CLASSES)[t % len(CLASSES)]
             chain, cdr, allowed = CLASSES[cname]
         kwargs = {KW[k]: w[k] for k in allowed if w[k] != 1 or rng.random() < 0.3}
+        if t in (8, 9):
+            # (the paired CDR3 metric with its default weights / with equal non-unit chain weights, on the sliding-chain table below)
+            cname = "Cdr3Levenshtein"
+            chain, cdr, allowed = CLASSES[cname]
+            w = {"iw": 1, "dw": 1, "sw": 1, "aw": t - 7, "bw": t - 7, "c1": 1, "c2": 1, "c3": 1}
+            kwargs = {} if t == 8 else {"alpha_weight": 2, "beta_weight": 2}
         metric = getattr(tm, cname)(**kwargs)
         A, ka = table(rng.randint(1, 12))
         B, kb = table(rng.randint(1, 8))
+        if t in (8, 9, 10) and len(A) >= 2 and len(B) >= 2:
+            # every run: CDR3s whose residues "slide" across the pair of chains (the end of one alpha resembles the start of a beta)
+            A = A.astype({"CDR3A": object, "CDR3B": object})
+            B = B.astype({"CDR3A": object, "CDR3B": object})
+            A.iloc[0, A.columns.get_loc("CDR3A")], A.iloc[0, A.columns.get_loc("CDR3B")] = "CAVRDGNT", "CASSLGF"
+            A.iloc[1, A.columns.get_loc("CDR3A")], A.iloc[1, A.columns.get_loc("CDR3B")] = "CAVRD", "GNTCASSLGF"
+            B.iloc[0, B.columns.get_loc("CDR3A")], B.iloc[0, B.columns.get_loc("CDR3B")] = "CAVRD", "GNTCASSLGF"
+            B.iloc[1, B.columns.get_loc("CDR3A")], B.iloc[1, B.columns.get_loc("CDR3B")] = "CAVRDGNT", "CASSLGF"
         A0, B0 = A.copy(deep=True), B.copy(deep=True)
         rc = core.call_real(lambda: np.asarray(metric.calc_cdist_matrix(A, B)))
         rp = core.call_real(lambda: np.asarray(metric.calc_pdist_vector(A)))
